@@ -10,7 +10,7 @@ from typing import Any, Dict, List, Optional, Set
 from . import common, compat
 from .common import Report, cfg_text, run_tlc
 
-BASE_CONST = {"AVals": {"0", "7"}, "PVals": {"0"}, "Tags": {1, 2}}
+BASE_CONST = {"AVals": {"0", "7"}, "PVals": {"0"}, "RVals": {"0"}, "Tags": {1, 2}}
 
 
 def tlc_cases(rep: Report, wd, name: str, consts: Dict[str, Any], lvals: str, svals: str, out):
@@ -51,7 +51,7 @@ def build(fam, w: Dict[str, Any], how: str):
     nkw: Dict[str, Any] = {}
     n = w["n"]
     if n["has"]:
-        for f in ("p", "q"):
+        for f in ("p", "q", "r"):
             if n[f]["has"]:
                 nkw[f] = fam["atom"][f][n[f]["v"]]
     if how == "construct":
@@ -108,7 +108,8 @@ def project(fam, obj) -> Dict[str, Any]:
     out["s"] = {"has": sv is not None, "v": sorted(elem(e) for e in (sv or set()))}
     nv = d.get("n")
     if nv is None:
-        out["n"] = {"has": False, "tag": 0, "p": {"has": False, "v": ""}, "q": {"has": False, "v": ""}}
+        out["n"] = {"has": False, "tag": 0, "p": {"has": False, "v": ""}, "q": {"has": False, "v": ""},
+                    "r": {"has": False, "v": ""}}
     else:
         tag = 0
         for t in (2, 1):
@@ -116,7 +117,8 @@ def project(fam, obj) -> Dict[str, Any]:
                 tag = t
                 break
         nd = nv.__dict__
-        out["n"] = {"has": True, "tag": tag, "p": atom("p", nd.get("p")), "q": atom("q", nd.get("q"))}
+        out["n"] = {"has": True, "tag": tag, "p": atom("p", nd.get("p")), "q": atom("q", nd.get("q")),
+                    "r": atom("r", nd.get("r"))}
     return out
 
 
@@ -257,6 +259,8 @@ def roundtrip(rep: Report, fam, universe, label):
         kw["s"] = {fam["elem"][e] for e in w["s"]["v"]}
         if w["n"]["has"]:
             kw["n"] = fam["N"][1](**{f: fam["atom"][f][w["n"][f]["v"]] for f in ("p", "q") if w["n"][f]["has"]})
+            if w["n"]["r"]["has"]:
+                continue
         obj = fam["M"](**kw)
         back = fam["P"].to_partial(obj).from_partial()
         n += 1
@@ -285,10 +289,10 @@ def run(tier: str) -> int:
     try:
         with cf.ThreadPoolExecutor(max_workers=2) as ex:
             f1 = ex.submit(tlc_cases, rep, wd, "laws_all_triples",
-                           {**BASE_CONST, "BVals": set(), "QVals": set(), "PairsOnly": False, "Stride": 1},
+                           {**BASE_CONST, "AVals": {"0"}, "BVals": set(), "QVals": set(), "PairsOnly": False, "Stride": 1},
                            "L_small", "S_one", wd / "cases_small.json")
             f2 = ex.submit(tlc_cases, rep, wd, "laws_all_pairs_rich",
-                           {**BASE_CONST, "BVals": {"F"}, "QVals": {"F"}, "PairsOnly": True, "Stride": 23 if quick else 5},
+                           {**BASE_CONST, "BVals": {"F"}, "QVals": {"F"}, "PairsOnly": True, "Stride": 41 if quick else 7},
                            "L_small" if quick else "L_big", "S_small", wd / "cases_rich.json")
             small, rich = f1.result(), f2.result()
         if small is None or rich is None:
